@@ -4,13 +4,16 @@ import core
 import simgen
 
 
+NEEDS = {"c15": ("arm64",), "c16": ("arm",), "c13sim": ("arm64", "arm"), "c01sim": ("amd64",), "c11sim": ("arm64",), "c02sim": ()}
+
+
 def run_sim(r, scenario, seed, tier, variants, profiles, nshards=4, extra=None, crosscheck=True):
     totals = {}
     words_files = []
     for v in variants:
         for prof in profiles:
             try:
-                exe, changes = simgen.build(v, prof)
+                exe, changes = simgen.build(v, prof, NEEDS.get(scenario, simgen.EMITTERS))
             except core.HarnessError as e:
                 # the emitters no longer compile against the shim (their interface to `common` changed): the
                 # simulation part cannot say anything; whatever else the check decided stands on its own
